@@ -239,6 +239,8 @@ class ARP(Service, discriminator="arp"):
         if not super().receive(payload, session_id, **kwargs):
             return False
 
+        if not isinstance(payload, ARPPacket):
+            return False
         from_network_interface = kwargs["from_network_interface"]
         if payload.request:
             self._process_arp_request(arp_packet=payload, from_network_interface=from_network_interface)
